@@ -239,7 +239,7 @@ func showVals17(v []any) string {
 func runC17(c *fw.Ctx) {
 	c.Cases("sort", c.N(3000, 2000000), false, func(i int, r *rng.R) {
 		kind := r.Intn(3)
-		n := []int{1, 2, 3, 4, 5, 8, 13, 21, 40, r.Range(1, 40), r.Range(1, 40), 65, r.Range(41, 300)}[r.Intn(13)]
+		n := []int{1, 2, 3, 4, 5, 8, 13, 21, 40, r.Range(1, 40), r.Range(1, 40), 65, r.Range(41, 300), r.Range(1, 40), []int{513, 1025, 5000}[r.Intn(3)]}[r.Intn(15)]
 		vals := c17Values(r, kind, n)
 		c17Sort(c, r, vals, kind)
 	})
@@ -446,6 +446,22 @@ func c17Sort(c *fw.Ctx, r *rng.R, vals []any, kind int) {
 				}
 				l.Delete(r.Intn(n))
 				desc = "Delete(i)"
+			}
+			if r.Chance(1, 3) {
+				// Reverse right after a length change that followed a Sort
+				b4 := top(l).([]any)
+				l.Reverse()
+				af := top(l).([]any)
+				okR := len(af) == len(b4)
+				for j := 0; okR && j < len(b4); j++ {
+					if !eqSlot(af[len(b4)-1-j], b4[j]) {
+						okR = false
+					}
+				}
+				if !okR {
+					c.Violate("reverse-after-sort-and-mutation-misplaces", in()+" built via "+how+", then sorted, then "+desc+" giving "+showVals17(b4)+", then Reverse", "element i moves to n-1-i", showVals17(af))
+					return
+				}
 			}
 			cur := top(l).([]any)
 			wantH := multiset(cur)
